@@ -23,6 +23,7 @@
 #include <ompl/control/planners/syclop/SyclopEST.h>
 #include <ompl/control/planners/syclop/SyclopRRT.h>
 #include <ompl/control/spaces/RealVectorControlSpace.h>
+#include <ompl/control/spaces/DiscreteControlSpace.h>
 #include <ompl/util/Console.h>
 #include <ompl/util/Exception.h>
 
@@ -45,11 +46,12 @@ namespace
         CAR,       // SE(2): (v, phi)    x += v cos th dt, y += v sin th dt, th += v tan(phi)/len dt
         UNICYCLE,  // SE(2): (v, omega)
         DINT,      // R^4 (x, y, vx, vy): (ax, ay)
-        POINT      // R^n: u (velocity), optionally steerable
+        POINT,     // R^n: u (velocity), optionally steerable
+        DTURN      // SE(2), ONE DISCRETE control u in {lo..hi}: constant speed, th += u * turn rate * dt
     };
     Sys sysOf(const std::string &s)
     {
-        return s == "car" ? CAR : (s == "unicycle" ? UNICYCLE : (s == "dint" ? DINT : POINT));
+        return s == "car" ? CAR : (s == "unicycle" ? UNICYCLE : (s == "dint" ? DINT : (s == "dturn" ? DTURN : POINT)));
     }
     double wrapAngle(double v)
     {
@@ -66,6 +68,8 @@ namespace
         int n = 2;       // state reals
         int m = 2;       // controls
         double len = 1;  // car length
+        double speed = 1, turn = 1;  // DTURN
+        bool discrete = false;       // the control space is a DiscreteControlSpace (one integer control)
         // one step on raw coordinates; x and out may alias
         void step(const double *x, const double *u, double dt, double *out) const
         {
@@ -85,6 +89,14 @@ namespace
                 out[0] = nx;
                 out[1] = ny;
             }
+            else if (sys == DTURN)
+            {
+                double th = x[2];
+                double nx = x[0] + speed * std::cos(th) * dt, ny = x[1] + speed * std::sin(th) * dt;
+                out[2] = wrapAngle(th + u[0] * turn * dt);
+                out[0] = nx;
+                out[1] = ny;
+            }
             else if (sys == DINT)
             {
                 double nx = x[0] + x[2] * dt, ny = x[1] + x[3] * dt;
@@ -98,6 +110,14 @@ namespace
                     out[i] = x[i] + u[i] * dt;
         }
     };
+    // the control as reals, whatever the control space (real vector, or one discrete value)
+    const double *ctrlValues(const System &sys, const oc::Control *c, double *buf)
+    {
+        if (!sys.discrete)
+            return c->as<oc::RealVectorControlSpace::ControlType>()->values;
+        buf[0] = (double)c->as<oc::DiscreteControlSpace::ControlType>()->value;
+        return buf;
+    }
     void toRaw(const world::World &w, const ob::State *s, double *x)
     {
         if (w.kind == world::World::SE2)
@@ -143,7 +163,8 @@ namespace
         {
             double x[8], o[8];
             toRaw(*w_, state, x);
-            sys_->step(x, control->as<oc::RealVectorControlSpace::ControlType>()->values, duration, o);
+            double ub[1];
+            sys_->step(x, ctrlValues(*sys_, control, ub), duration, o);
             fromRaw(*w_, o, result);
             calls++;
         }
@@ -246,7 +267,8 @@ namespace
     {
         world::WorldPtr w;
         System sys;
-        std::shared_ptr<oc::RealVectorControlSpace> cs;
+        std::shared_ptr<oc::RealVectorControlSpace> cs;  // null for the discrete-control system
+        std::shared_ptr<oc::ControlSpace> csAny;
         std::shared_ptr<oc::SpaceInformation> csi;
         std::shared_ptr<Propagator> prop;
         std::shared_ptr<world::Query> q;  // current query
@@ -330,6 +352,12 @@ public:
         plan["planner"] = planner;
         static const char *systems[] = {"car", "unicycle", "dint", "point", "point"};
         std::string system = g.pick(systems);
+        // (a sixth of the cases, decided by a stream of its own so that the other plans keep their meaning) a vehicle with
+        // ONE DISCRETE control: DiscreteControlSpace with a lower bound that need not be 0
+        sim::Rng gd(sim::mix(seed, "discrete-control"));
+        const bool dturn = gd.chance(1.0 / 6.0);
+        if (dturn)
+            system = "dturn";
         plan["system"] = system;
         Json w = Json::object();
         static const double los[] = {0, -5, -100, 0};
@@ -339,7 +367,7 @@ public:
             bi = 1;  // velocities share the bounds of the positions: symmetric box
         double lo = los[bi], hi = his[bi], L = hi - lo;
         int dim = 2;
-        if (system == "car" || system == "unicycle")
+        if (system == "car" || system == "unicycle" || system == "dturn")
             w["space"] = "se2";
         else
         {
@@ -415,12 +443,19 @@ public:
         w["obstacles"] = oj;
         plan["world"] = w;
         // controls: asymmetric bounds scaled to the world, sometimes one control pinned (zero-width bound)
-        int m = system == "point" ? dim : 2;
+        int m = system == "point" ? dim : (dturn ? 1 : 2);
         Json ulo = Json::array(), uhi = Json::array();
         for (int i = 0; i < m; i++)
         {
             double a, b;
-            if ((system == "car") && i == 1)
+            if (dturn)
+            {
+                a = (double)gd.pick(std::vector<long>{-2, -1, -1, 0, 1});
+                b = a + (double)gd.pick(std::vector<long>{1, 2, 2, 3});
+                plan["speed"] = L * gd.real(0.1, 0.5);
+                plan["turn_rate"] = gd.real(0.5, 3.0);
+            }
+            else if ((system == "car") && i == 1)
             {
                 a = -g.real(0.2, 1.2);
                 b = g.real(0.2, 1.2);
@@ -438,7 +473,7 @@ public:
                 if ((system == "car" || system == "unicycle") && g.chance(0.3))
                     a = s * 0.05;  // forward only
             }
-            if (g.chance(0.05))
+            if (g.chance(0.05) && !dturn)
                 a = b;  // pinned control
             ulo.push(Json(a));
             uhi.push(Json(b));
@@ -457,7 +492,7 @@ public:
             Json s = Json::array();
             s.push(Json(p[0]));
             s.push(Json(p[1]));
-            if (system == "car" || system == "unicycle")
+            if (system == "car" || system == "unicycle" || system == "dturn")
                 s.push(Json(g.real(-3.14, 3.14)));
             else if (system == "dint")
             {
@@ -593,7 +628,7 @@ public:
                 solve((long)g.pick(std::vector<long>{0, 1, 2, 5, 20, 100, 500, 2000, 2000, budget}), true);
             // (drawn last) the application tightens the control bounds of the space the planner is using, clears the
             // planner and plans again: every control of the new solutions lies within the bounds that hold now
-            if (g.chance(0.15))
+            if (g.chance(0.15) && !dturn)
             {
                 Json op = Json::object();
                 op["op"] = "tighten";
@@ -680,15 +715,24 @@ public:
         for (auto &x : plan["uhi"].items())
             c.uhi.push_back(x.d());
         c.sys.m = (int)c.ulo.size();
-        c.cs = std::make_shared<oc::RealVectorControlSpace>(c.w->ss, (unsigned)c.sys.m);
-        ob::RealVectorBounds cb((unsigned)c.sys.m);
-        for (int i = 0; i < c.sys.m; i++)
+        c.sys.speed = plan.getd("speed", 1.0);
+        c.sys.turn = plan.getd("turn_rate", 1.0);
+        c.sys.discrete = c.sys.sys == DTURN;
+        if (c.sys.discrete)
+            c.csAny = std::make_shared<oc::DiscreteControlSpace>(c.w->ss, (int)c.ulo[0], (int)c.uhi[0]);
+        else
         {
-            cb.setLow((unsigned)i, c.ulo[(size_t)i]);
-            cb.setHigh((unsigned)i, c.uhi[(size_t)i]);
+            c.cs = std::make_shared<oc::RealVectorControlSpace>(c.w->ss, (unsigned)c.sys.m);
+            ob::RealVectorBounds cb((unsigned)c.sys.m);
+            for (int i = 0; i < c.sys.m; i++)
+            {
+                cb.setLow((unsigned)i, c.ulo[(size_t)i]);
+                cb.setHigh((unsigned)i, c.uhi[(size_t)i]);
+            }
+            c.cs->setBounds(cb);
+            c.csAny = c.cs;
         }
-        c.cs->setBounds(cb);
-        c.csi = std::make_shared<oc::SpaceInformation>(c.w->ss, c.cs);
+        c.csi = std::make_shared<oc::SpaceInformation>(c.w->ss, c.csAny);
         c.csi->setStateValidityChecker(std::make_shared<CtrlValidity>(c.csi, c.w.get()));
         c.prop = std::make_shared<Propagator>(c.csi.get(), c.w.get(), &c.sys, plan.getb("steer"), c.ulo, c.uhi);
         c.csi->setStatePropagator(c.prop);
@@ -779,7 +823,8 @@ public:
         ob::State *tmp = c.w->ss->allocState();
         for (size_t i = 0; i < cs.size() && res.vclass.empty(); i++)
         {
-            const double *u = cs[i]->as<oc::RealVectorControlSpace::ControlType>()->values;
+            double ub[1];
+            const double *u = ctrlValues(c.sys, cs[i], ub);
             for (int k = 0; k < c.sys.m; k++)
                 if (!(u[k] >= c.ulo[(size_t)k] && u[k] <= c.uhi[(size_t)k]))
                 {
